@@ -200,6 +200,13 @@ enum Point {
 
 fn yield_hook(site: u32) {
     if SUPPRESS.with(|s| s.get()) {
+        // no scheduling point, but a sign of life for the watchdog: a long operation that runs
+        // with its yield sites off must not look like a thread that is stuck
+        CTX.with(|c| {
+            if let Some((sh, _)) = c.borrow().as_ref() {
+                sh.progress.fetch_add(1, Ordering::Relaxed);
+            }
+        });
         return;
     }
     CTX.with(|c| {
